@@ -108,6 +108,9 @@ class Builder:
         if "str" in v:
             return ("str", v["str"])
         if "name" in k and "promoted" not in k:
+            if "mem" in v and k["name"] not in self.facts.consts:
+                # a const item local to a function body is not a module child: its value comes with the operand
+                self.facts.consts[k["name"]] = {"ty": k["ty"], "vis": "local", "v": v}
             return ("named", k["name"])
         if "promoted" in k:
             return ("promoted", k["name"], k["promoted"])
